@@ -25,6 +25,10 @@ struct Def {
   int cond = 0;               // 0 unconditional, 1 = [isA] (code == 1), 2 = [isB] (code == 2)
   bool condPool = false;      // unconditional partner of the conditional definitions in the availability pass
   bool shape = false;         // chained definition of the chain-shape pass (>= 3 parts, prefix structure varied)
+  uint8_t pb = 0xb5, sb = 0x09;   // command bytes
+  bool implicit = false;      // not a CSV row: identification message created by MessageMap::getScanMessage(dst)
+  bool optional = false;      // built-in message outside the key map (generic / broadcast scan): may be returned, never required
+  bool editPool = false;      // member of the edit pass (remove / replacing add)
   bool passive() const { return kind == K_PASSIVE_READ || kind == K_PASSIVE_WRITE; }
   bool write() const { return kind == K_WRITE || kind == K_PASSIVE_WRITE; }
   bool chained() const { return parts.size() > 1; }
@@ -119,12 +123,21 @@ inline std::vector<Def> universe() {
   add(K_READ, ANY, 0x08, {"0d0200", "0d0100", "0d0101"}, false); u.back().shape = true;          // 50 first part differs from the others
   add(K_READ, ANY, 0x08, {"0d01", "0e01", "0d02"}, false); u.back().shape = true;                // 51 nothing in common
   add(K_READ, ANY, ANY, {"0d0100", "0d0201", "0d0102", "0d0200"}, false); u.back().shape = true;  // 52 four parts, wildcard destination
+  // identification ("scan", command 07 04) messages that every MessageMap owns or creates per address
+  add(K_READ, ANY, 0x08, {""}, false); u.back().implicit = true; u.back().pb = 0x07; u.back().sb = 0x04;   // 53 scan.08
+  add(K_READ, ANY, 0x15, {""}, false); u.back().implicit = true; u.back().pb = 0x07; u.back().sb = 0x04;   // 54 scan.15
+  add(K_READ, ANY, ANY, {""}, false); u.back().implicit = true; u.back().optional = true; u.back().pb = 0x07; u.back().sb = 0x04;    // 55 generic scan message
+  add(K_WRITE, ANY, 0xfe, {""}, false); u.back().implicit = true; u.back().optional = true; u.back().pb = 0x07; u.back().sb = 0x04;  // 56 broadcast scan message
   for (int i : {0, 1, 2, 3, 4, 11, 12, 13, 19, 30, 31, 32}) u[i].condPool = true;
+  // edit pass: fold twins (5/8/39 share one key class), direction and chained neighbours, conditional twins
+  for (int i : {2, 3, 5, 8, 39, 11, 12, 30, 31, 40, 41, 44, 46}) u[i].editPool = true;
   return u;
 }
 
 static const int FIRST_CONDITIONAL = 40;
 static const int FIRST_SHAPE = 47;
+static const int FIRST_IMPLICIT = 53;
+static const int GENERIC_SCAN = 55, BROADCAST_SCAN = 56;
 // lines loaded before the definitions of a map that contains conditional definitions: the message the
 // conditions refer to (other PBSB than the universe) and the two conditions
 static const char* const COND_PRELUDE[] = {
@@ -136,6 +149,11 @@ static const char* const COND_PRELUDE[] = {
 inline std::string defLine(const Def& d, size_t idx) {
   char b[64];
   std::string s;
+  if (d.implicit) {
+    if (d.optional) return d.dst == ANY ? "(built-in generic identification message 07 04)" : "(built-in broadcast identification message 07 04)";
+    snprintf(b, sizeof(b), "getScanMessage(%02x)  (identification message 07 04 for that address)", d.dst);
+    return b;
+  }
   if (d.cond) s += d.cond == 1 ? "[isA]" : "[isB]";
   s += d.kind == K_READ ? "r" : d.kind == K_WRITE ? "w" : d.kind == K_PASSIVE_READ ? "u" : "uw";
   snprintf(b, sizeof(b), ",c,n%02u,,", (unsigned)idx);
